@@ -87,11 +87,9 @@ def handle : Handler := fun cmd args =>
   | "climerge", n :: rest => some do
       let some n := n.toNat? | throw "bad-count"
       if rest.length < n then throw "short-argv"
-      let env ← (rest.take n).mapM fun t => if t == "!" then pure none else (hexArg t).map some
+      let env ← (rest.take n).mapM fun t => if t == "!" then pure [] else hexArg t
       let words ← hexList (rest.drop n)
-      match mergeConfig env words with
-      | some merged => pure (" ".intercalate (merged.map outHex))
-      | none => pure "panic"
+      pure (" ".intercalate ((mergeConfig env words).map outHex))
   | _, _ => none
 
 end Comrak.Drv.C16
